@@ -114,6 +114,106 @@ def rule_grad(repo: Repo, rep: Report) -> int:
     return n
 
 
+def rule_root_at_zero(repo: Repo, rep: Report) -> int:
+    """The power constraints treat an all-zero batch item explicitly (zero_mask / torch.where), so such items are inside their
+    inputs.  A square root taken of the item's power *before* any positive offset has an infinite derivative there; the
+    backward pass multiplies it by the zero gradient coming through torch.where (which does not protect the unselected
+    arm) and every element of that item gets a NaN gradient.  sqrt(c / (P + eps)) is fine, c / (sqrt(P) + eps) is not."""
+    from ..astutil import Inliner
+
+    n = 0
+
+    defs_holder: Dict[str, list] = {}
+
+    def may_vanish(e: ast.AST, depth=0) -> bool:
+        if isinstance(e, ast.Name) and depth < 6 and e.id in defs_holder:
+            return any(may_vanish(d_, depth + 1) for d_ in defs_holder[e.id])
+        if isinstance(e, ast.BinOp) and isinstance(e.op, ast.Add):
+            # a positive literal / eps offset bounds the value away from zero
+            for side in (e.left, e.right):
+                if isinstance(side, ast.Constant) and isinstance(side.value, (int, float)) and side.value > 0:
+                    return False
+                if isinstance(side, ast.Name) and "eps" in side.id.lower():
+                    return False
+            return may_vanish(e.left, depth + 1) and may_vanish(e.right, depth + 1)
+        if isinstance(e, ast.BinOp) and isinstance(e.op, ast.Div):
+            return may_vanish(e.left, depth + 1)
+        if isinstance(e, ast.BinOp) and isinstance(e.op, ast.Mult):
+            return may_vanish(e.left, depth + 1) or may_vanish(e.right, depth + 1)
+        if isinstance(e, ast.BinOp) and isinstance(e.op, ast.Pow):
+            return any(isinstance(x, ast.Name) and x.id in ("x", "x_reshaped", "x_flat") for x in ast.walk(e.left)) or may_vanish(e.left, depth + 1)
+        if isinstance(e, ast.Call):
+            short = (call_name(e) or "").split(".")[-1]
+            if short in ("clamp", "clip", "clamp_min") and (any(k.arg == "min" for k in e.keywords) or len(e.args) >= 2):
+                return False
+            if short in ("sum", "mean", "abs", "square", "norm", "real"):
+                args = list(e.args) + ([e.func.value] if isinstance(e.func, ast.Attribute) and not (call_name(e) or "").startswith("torch.") else [])
+                return any(may_vanish(a, depth + 1) or any(isinstance(x, ast.Name) and x.id in ("x", "x_reshaped", "x_flat") for x in ast.walk(a)) for a in args)
+        return False
+
+    for file, cname in ((PW, "TotalPowerConstraint"), (PW, "AveragePowerConstraint")):
+        ci = repo.cls(file, cname)
+        for mname in ("forward", "_apply_constraint_to_single_item"):
+            fi = ci.methods.get(mname)
+            if fi is None:
+                continue
+            handles_zero = any(isinstance(x, ast.Name) and x.id == "zero_mask" for x in ast.walk(fi.node)) or any(isinstance(c, ast.Compare) and isinstance(c.ops[0], ast.Lt) and isinstance(c.comparators[0], ast.Constant) and isinstance(c.comparators[0].value, float) and c.comparators[0].value < 1e-6 for c in ast.walk(fi.node))
+            if not handles_zero:
+                continue
+            inl = Inliner(fi)
+            defs_holder.clear()
+            for s_ in ast.walk(fi.node):
+                if isinstance(s_, ast.Assign) and len(s_.targets) == 1 and isinstance(s_.targets[0], ast.Name) and s_.targets[0].id not in ("x", "x_reshaped"):
+                    defs_holder.setdefault(s_.targets[0].id, []).append(s_.value)
+            for c in ast.walk(fi.node):
+                root = None
+                if isinstance(c, ast.Call) and (call_name(c) or "").split(".")[-1] in ("sqrt", "rsqrt") and (c.args or isinstance(c.func, ast.Attribute)):
+                    root = c.args[0] if c.args else c.func.value
+                elif isinstance(c, ast.BinOp) and isinstance(c.op, ast.Pow) and isinstance(c.right, ast.Constant) and c.right.value in (0.5, -0.5):
+                    root = c.left
+                if root is None:
+                    continue
+                n += 1
+                arg = inl.inline(root)
+                if may_vanish(arg):
+                    rep.violation("GRAD", fi, f"{cname}.{mname}: {unparse(c)[:70]}", f"the root is taken of `{unparse(arg)[:60]}`, which is exactly 0 for an all-zero batch item (a case this method handles explicitly): its derivative is infinite there, and 0 * inf in the backward pass gives NaN gradients for every element of that item (torch.where does not shield the unselected arm) - put the offset inside the root: sqrt(c / (P + eps))", node=c)
+                else:
+                    rep.ok("GRAD", fi, f"{cname}.{mname}: {unparse(c)[:70]}", "the argument of the root is bounded away from zero (or independent of the signal)", node=c, nontrivial=False)
+    return n
+
+
+def rule_shared_flags(repo: Repo, rep: Report) -> int:
+    """Multi-user image models choose `self.<parts>[0]` (one shared module) or `self.<parts>[i]` (one per device) by the flag
+    `self.shared_<part>`; selecting the encoders by the decoders' flag (or vice versa) sends every device through module 0
+    whenever the two flags differ, and the other modules' parameters never receive a gradient (`grad is None`)."""
+    n = 0
+    mi = repo.module(IMG + "yilmaz2023_deepjscc_noma.py")
+    for ci in mi.classes.values():
+        for m, fi in ci.methods.items():
+            for x in ast.walk(fi.node):
+                if not isinstance(x, ast.IfExp):
+                    continue
+                b, o = x.body, x.orelse
+                if not (isinstance(b, ast.Subscript) and isinstance(o, ast.Subscript) and attr_chain(b.value) == attr_chain(o.value) and (attr_chain(b.value) or "").startswith("self.")):
+                    continue
+                lst = attr_chain(b.value)[5:]
+                if not lst.endswith("s"):
+                    continue
+                flags = [attr_chain(a) for a in ast.walk(x.test) if isinstance(a, ast.Attribute) and (attr_chain(a) or "").startswith("self.shared_")]
+                if not flags:
+                    continue
+                n += 1
+                want = f"self.shared_{lst[:-1]}"
+                if flags == [want] and isinstance(b.slice, ast.Constant) and b.slice.value == 0:
+                    rep.ok("CONV", fi, f"{ci.name}.{m}: {unparse(x)}", f"module 0 of `{lst}` for every device iff {want}", node=x, nontrivial=False)
+                elif want not in flags:
+                    rep.violation("CONV", fi, f"{ci.name}.{m}: {unparse(x)}", f"`self.{lst}` is selected by `{flags[0]}` instead of `{want}`: when the two flags differ every device goes through `self.{lst}[0]`, the per-device modules are never applied and their parameters get no gradient (`grad is None`)", node=x)
+                else:
+                    rep.undecided("CONV", fi, f"{ci.name}.{m}: {unparse(x)}", "selection shape not recognised", node=x)
+    rep.floor("shared / per-device module selections", n, 2)
+    return n
+
+
 def rule_pipeline(repo: Repo, rep: Report) -> int:
     from .c17 import rule_stage_lists
 
@@ -502,6 +602,8 @@ def rule_filters(repo: Repo, rep: Report) -> int:
 def run(repo: Repo, rep: Report, tier: str) -> None:
     n = rule_grad(repo, rep)
     n += rule_pipeline(repo, rep)
+    n += rule_root_at_zero(repo, rep)
+    n += rule_shared_flags(repo, rep)
     n += rule_conv(repo, rep)
     n += rule_filters(repo, rep)
     rep.floor("C19 rule instances", n, 30)
